@@ -569,6 +569,26 @@ class Engine:
             out.add(f)
         return out
 
+    def _rewrite_through_definition(self, facts, v):
+        """Before local `v` is overwritten: what was known about v is restated about the expression that defined it
+        (v == d, d not mentioning v), so `n = 4096 - r; if (n > size) n = size;` keeps `size < 4096 - r` on the taken arm."""
+        d = None
+        for f in facts:
+            if f[0] == "==" and v in (f[1], f[2]):
+                o = f[2] if f[1] == v else f[1]
+                if not mentions(o, v) and o[0] in ("var", "mem", "op", "const"):
+                    if d is None or len(repr(o)) < len(repr(d)):
+                        d = o
+        if d is None:
+            return facts
+        extra = set()
+        for f in facts:
+            if f[0] in ("<", "<=", "==", "!=") and mentions(f, v):
+                g = substitute(f, {v: d})
+                if g[1] != g[2] and not mentions(g, v):
+                    extra.add(norm_cmp(g[0], g[1], g[2]))
+        return facts | extra
+
     def _kill_item(self, fn, facts, item):
         if item[0] == "this":
             if item[1] == "*":
@@ -623,9 +643,9 @@ class Engine:
             if op == "=" or (op.endswith("=") and op not in ("==", "!=", "<=", ">=")):
                 ks = fn.kids(e)
                 lt = fn.term(ks[0])
+                if lt[0] == "var":
+                    facts = self._rewrite_through_definition(facts, lt)
                 facts = self._kill(facts, lt)
-                if lt[0] == "idx":
-                    pass
                 if op == "=":
                     rt = fn.term(ks[1])
                     if rt[0] != "?" and not mentions(rt, lt) and lt[0] in ("var", "mem"):
